@@ -19,6 +19,12 @@ iteration_fixed_point_distance / iteration_warning / iteration_count, ig_residua
 ig_false_warning / ig_returned_point / ig_call_pattern / ig_history, mt_probability_vector /
 mt_epsilon_nash / mt_false_negative / mt_not_converged_early / mt_num_iter / mt_image_pure,
 is_epsilon_nash, polym_lcp_nash / polym_lcp_convergence / polym_lcp_flag.
+polym_lcp_solver is also tied to the model of Howson's LCP: `howf` (Float) must reproduce the pivot sequence
+(column:row of every _pivoting call of the main loop), the final basis, the flag, num_iter and the returned profile
+bit for bit; `how` (Rat, the code's tolerances / tolerances 0, generic payoffs) the same with the profile inside 1e-9.
+Back-tracking is reached on purpose: a screening stream keeps the starts whose run back-tracks, and the corpus
+harness/corpus/c15_howson_moved.json holds 40 four-player runs that restart a level while the slack w_{p,start_p}
+is basic in another row (counters howson:*).
 The certificate "rho from Lemke-Howson is a probability vector" (hypothesis of the convexity theorems) is
 counted (lh:*), not raised: it is not part of the property.
 """
@@ -777,6 +783,9 @@ def run(ctx):
                 ok = hm[0] == hi[0] and all(abs(a - c) <= ENV for a, c in zip(parse_rats(hm[1]), F(np.concatenate(NE))))
             if not ok:
                 return "pivot sequence / basis / flag / count / profile differ"
+            if tagc == "how0" and kvs(head)["conv"] == "1":
+                ctx.count("howson:tol0-generic:converged:certificate-%s" % (
+                    "holds" if g["cert"] == "1" and g["allfound"] == "1" and g["negp"] == "0" else "fails"))
             if tagc == "howf":
                 ctx.count("howson:N=%s:runs" % g["N"])
                 for k in ("back", "rx", "ry", "moved"):
@@ -790,6 +799,20 @@ def run(ctx):
         req = "nums=%s start=%s pm=%%s maxiter=%d fuel=%d" % (ints(nums), ints(st), cap, 2 * cap + 50 if cap >= 0 else 20000)
         cases.append(Case("C15 howf " + req % fxm([np.array(mats[k]).ravel() for k in pairs]), impl, cmp=hcmp,
                           nontrivial=len(trace) >= 2, tag="howf"))
+        if not generic:
+            # degenerate (integer) games at tolerances 0: the exact run may legitimately take another path than the
+            # code's floating-point run, so nothing is compared; recorded: does the model's own converged run carry the
+            # certificate (ghost flags clean, final right-hand side >= 0, complementary basis)?
+            def rec0(mo, impl_s):
+                if " | " in mo:
+                    head, ghost = mo.split(" | ")
+                    g = kvs(ghost)
+                    if kvs(head)["conv"] == "1":
+                        ctx.count("howson:tol0-integer:converged:certificate-%s" % (
+                            "holds" if g["cert"] == "1" and g["allfound"] == "1" and g["negp"] == "0" else "fails"))
+                return None
+            cases.append(Case("C15 how " + req % ratm([F(np.array(mats[k]).ravel()) for k in pairs]) + " tolpiv=0 toldiff=0",
+                              impl, cmp=rec0, nontrivial=False, tag="how-tol0-integer(record-only)"))
         if generic:
             rq = ratm([F(np.array(mats[k]).ravel()) for k in pairs])
             cases.append(Case("C15 how " + req % rq + " tolpiv=%s toldiff=%s" % (rat(Fraction(1e-10)), rat(Fraction(1e-15))),
